@@ -75,6 +75,7 @@ errmsg("C01", "planner-pre-projection-group-by", "Failed to plan expressions for
 errmsg("C01", "planner-projection", "Failed to plan expressions for projection", "physical planning fails ('Failed to plan expressions for projection') with LATERAL referencing two outer tables", "SELECT -l.z FROM a CROSS JOIN b, LATERAL (SELECT a.x AS z FROM c WHERE c.k <> b.k) l", ["C02", "C03", "C09"])
 errmsg("C01", "nested-cte-not-visible", "Missing table or view for reference 'S'", "a CTE is not visible from a WITH clause nested inside a later sibling CTE / derived table", "WITH a AS (..), b AS (WITH c AS (..) SELECT .. FROM a) SELECT ..", ["C09", "C02", "C03"])
 errmsg("C01", "lateral-ambiguous-column", "Ambiguous column name 'S'", "an unambiguous unqualified column is reported ambiguous when a LATERAL subquery over the same base table is in scope", "WITH c AS (SELECT z + k FROM t0 t1, LATERAL (SELECT 0 AS z FROM t1 s WHERE s.k <> t1.k) l WHERE ..) ..", ["C09", "C02", "C03"])
+errmsg("C01", "subqueries-in-projection-clone-arrays", "Cannot clone arrays with different data types", "execution fails ('Cannot clone arrays with different data types') when the select list holds two subquery expressions (scalar + IN) of different types over a join", "SELECT (SELECT s.k FROM t0 s WHERE a0 = vc3) AS z9, (t4.a IN (SELECT a0 FROM t0)) AS z13 FROM (VALUES ('x', 9)) v1(vc2, vc3) INNER JOIN t1 t4 ON true", ["C09", "C02", "C03"])
 panic("C02", "join-reorder-hyper-edge-assertion", "assertion failed: self.hyper_edges.all_non_empty_edges_removed()", "glaredb_core/src/optimizer/join_reorder/graph.rs", "join reordering trips an internal assertion (debug builds) on joins between CTE references with filters", "WITH c AS (..) SELECT .. FROM c x INNER JOIN c y ON (x.a = y.a) WHERE <const false> HAVING ..", ["C01", "C15", "C16", "C03", "C09"])
 panic("C02", "filter-pushdown-table-ref-assertion", "assertion `left == right` failed\n  left: TableRef { table_idx: N }\n right: TableRef { table_idx: N }", "glaredb_core/src/optimizer/filter_pushdown/mod.rs", "filter pushdown trips an internal assert_eq on table refs for UNION branches over derived tables", "SELECT .. FROM (.. GROUP BY CUBE ..) d WHERE d.c = d.c UNION SELECT .. FROM (..) d2, (..) d3, t WHERE ..", ["C01", "C15", "C16", "C03", "C09"])
 
